@@ -313,6 +313,7 @@ func (r *Run) Finish() int {
 			"known_findings":      knownLines,
 			"notes":               r.Notes,
 			"sensitivity":         r.Sensitivity,
+			"renamed_anchors":     Renames,
 			"exhaustive":          true,
 			"checker_cmd":         fmt.Sprintf("bin/olricvet check %s %s", r.Property, r.Tier),
 		},
